@@ -1,11 +1,17 @@
-(* C04 — barriers on concurrent queues exclude and order like a writer lock.
-   Proved over ALL interleavings of the model Model/CLane.v (one concurrent queue of any width 2..4094, any number of
-   threads; every dq_state read-modify-write is the body generated from the source): 1. width accounting,
-   2. exclusion, 3. order (FIFO around barriers for queued items, acquisition order for the fast paths),
-   4. no stuck state; plus the word-level guards of the generated bodies for all 2^64 words (first section).
-   The first section (word-level guards, names ending in _partial) is kept from the earlier stage of the work.
-   The model is tied to the library by the site lists (C04_model_sites_match) and by the trace check of lib/props/c04.py
-   (C04_trace_judges_sound is the soundness of its judges). *)
+(* C04 -- barriers on concurrent queues exclude and order like a writer lock.
+   Proved over all interleavings of the MODEL Model/CLane.v (one concurrent queue of any width 2..4094 targeting a root
+   queue, any number of flat client threads -- no call from inside a callout, see the header of CLane.v; every dq_state
+   read-modify-write is the body generated from the source): 1. width accounting, 2. exclusion, 3. order (FIFO around
+   barriers for queued items, acquisition order for the fast paths), 4. no stuck state; plus word-level guards of the
+   generated bodies for all 2^64 words (first section, names ending in _partial, kept from the earlier stage).
+   How the model is tied to the library, and how far: C04_model_sites_match (the atomic sites of the modelled functions,
+   prefixes for 5 of 13) and the trace check of lib/props/c04.py.  C04_trace_judges_sound below is only the
+   no-false-alarm direction for two of its judges (every reachable model state passes word_ok / owner_ok: they are
+   necessary conditions; word_ok bounds the width field from below only); there is no theorem about the transition judge
+   tr_ok (it compares a recorded write with the generated body of its source site for some admissible value of the
+   unrecorded locals; it does not place the write at a program point of the model), and no ghost state is reconstructed
+   from recorded runs.  Not in the model: suspension, non-root targets, dispatch_async_and_wait, DISPATCH_BLOCK_BARRIER,
+   dispatch_apply's reservations, the drainer's wait for an enqueuer's link. *)
 From Coq Require Import ZArith Bool List.
 From Verif Require Import Word Gen_consts Gen_dqstate Suspend_proofs Lane_iface.
 From Verif Require Import DqFields Gen_lanesites CLane CLaneJudge CLane_inv CLane_main.
@@ -28,7 +34,9 @@ Theorem C04_async_reader_fastpath_guards_partial : forall s,
 Proof. exact async_fastpath_guards. Qed.
 Print Assumptions C04_async_reader_fastpath_guards_partial.
 
-(* a barrier takes the drain lock only from a word with no owner, no width in use and no suspension *)
+(* the DRAINER's lock (_dispatch_queue_drain_try_lock: how a worker takes the drain lock, be it to run an asynchronous
+   barrier or readers) is refused on a word with an owner, with the width in use or suspended; this is not the
+   barrier-sync fast path, which is the next theorem *)
 Theorem C04_barrier_lock_exclusive_partial : forall s flags w self floor ov,
   Z.land s LOCK_FAIL <> 0 ->
   (exists r, f_dispatch_queue_drain_try_lock 0 flags w self floor s ov = NoCommit r [] /\ r = 0) \/
@@ -36,6 +44,13 @@ Theorem C04_barrier_lock_exclusive_partial : forall s flags w self floor ov,
              (m = 2147483648 \/ m = 274877906944)).
 Proof. exact drain_lock_refused_when_not_free. Qed.
 Print Assumptions C04_barrier_lock_exclusive_partial.
+
+(* the barrier-sync fast path (_dispatch_queue_try_acquire_barrier_sync_and_suspend) takes the lock from the idle word only *)
+Theorem C04_barrier_sync_fastpath_from_idle_only_partial : forall s tid k w new r,
+  f_dispatch_queue_try_acquire_barrier_sync_and_suspend 0 tid k w s = Commit new r ->
+  s = Z.lor (u64 (Z.shiftl (u64 (4096 - w)) 41)) (Z.land s ROLE_MASK) /\ r = 1.
+Proof. exact barrier_fastpath_from_idle_only. Qed.
+Print Assumptions C04_barrier_sync_fastpath_from_idle_only_partial.
 
 Example C04_nonvacuous :
   (* a concurrent queue (width 4094) with one reader in flight admits a second one, but not once a barrier is pending *)
@@ -117,8 +132,10 @@ Theorem C04_model_sites_match :
 Proof. exact model_sites_match. Qed.
 Print Assumptions C04_model_sites_match.
 
-(* (b) the judges the trace check evaluates on the recorded value chain of dq_state accept every reachable state: the
-   word-level projection of the width accounting, and the word seen by a barrier owner *)
+(* (b) two of the judges the trace check evaluates on the recorded value chain of dq_state accept every reachable state
+   (no false alarm; NOT the converse: a word that passes need not be reachable, word_ok is a lower bound on the width
+   field): the word-level projection of the width accounting, and the word seen by a barrier owner.  The transition judge
+   CLaneJudge.tr_ok has no theorem. *)
 Theorem C04_trace_judges_sound : forall W s, 2 <= W <= 4094 -> reach W s ->
   word_ok W (st s) = true /\ (forall t, lockh s = Some t -> bmode s = true -> owner_ok (st s) t = true).
 Proof. exact trace_judges_sound. Qed.
@@ -252,3 +269,16 @@ Theorem C04_terminal_state_is_drained : forall W s, 2 <= W <= 4094 -> reach W s 
   (let r := dec (st s) in f_owner r = 0 /\ f_enq r = 0 /\ f_d r = 0 /\ f_pb r = 0 /\ f_ib r = 0 /\ f_wq r = 4096 - W).
 Proof. exact terminal_state_is_drained. Qed.
 Print Assumptions C04_terminal_state_is_drained.
+
+(* the clauses of the invariant behind 4. that concern parked waiters and responsibility, exported: a waiter that was
+   granted the lock or a width interval has been woken or its waker is at the wake-up step; the item of a parked, not yet
+   granted waiter is on the list or in the hands of the lock owner that is transferring the lock to it; a non-empty list
+   always has a responsible party (lane enqueued or being pushed, readers in flight, lock held, or an enqueuer that still
+   owes its wakeup) *)
+Theorem C04_parked_waiters_and_responsibility : forall W s, 2 <= W <= 4094 -> reach W s ->
+  (forall u, grant s u <> GNone -> woken s u = true \/ exists t, waker (pcs s t) u = true) /\
+  (forall t i b, wait_item (pcs s t) = Some (i, b) -> grant s t = GNone ->
+     (exists x, In x (lst s) /\ i_id x = i /\ i_wt x = t) \/ exists u k e, pcs s u = DBW_xfer k e t i) /\
+  (lst s <> [] -> resp s).
+Proof. exact parked_waiters_and_responsibility. Qed.
+Print Assumptions C04_parked_waiters_and_responsibility.
